@@ -4,6 +4,7 @@
 //
 // usage: tree --n N [--iters 1] [--tear 1] [--deadline S] [--job NAME] [--replay "i3 r0 ..."]
 #include "../engine/xs.hpp"
+#include <cstddef>
 #include <set>
 #include <algorithm>
 
@@ -72,6 +73,20 @@ typedef a_rbt_node tnode;
 
 enum { OP_INS = 1, OP_REM = 2, OP_DUP = 3, OP_FIND = 4, OP_MISS = 5, OP_ITER = 6, OP_TEAR = 7 };
 
+// -DTREE_PACK2: the element is a packed record whose embedded node sits at an address that is 2 modulo 4 - the red-black node
+// documents 2-byte alignment only (its parent word keeps ONE tag bit), so nothing may assume more
+#if defined(TREE_PACK2)
+#pragma pack(push, 2)
+struct Elem
+{
+    short lead;
+    tnode node;
+    long key;
+    int id;
+    unsigned char guard[8];
+};
+#pragma pack(pop)
+#else
 struct Elem
 {
     tnode node;
@@ -79,10 +94,14 @@ struct Elem
     int id;
     unsigned char guard[8];
 };
+#endif
+// the element that embeds a node (the library's own entry macro: the node need not be the first member)
+#define ELEM(n) T(entry)(n, Elem, node)
+#define ELEMC(n) ((Elem const *)T(entry)(n, Elem, node))
 
 static int cmp_elem(void const *l, void const *r)
 {
-    long a = ((Elem const *)l)->key, b = ((Elem const *)r)->key;
+    long a = ELEMC(l)->key, b = ELEMC(r)->key;
     // any negative / zero / positive value is a valid answer: magnitudes other than one catch code that uses the result as +-1
     return a > b ? 3 : a < b ? -5 : 0;
 }
@@ -149,7 +168,7 @@ struct Live
     {
         char const *p = (char const *)n;
         if (p < (char const *)pool || p >= (char const *)(pool + used)) { return false; }
-        return (size_t)(p - (char const *)pool) % sizeof(Elem) == 0;
+        return (size_t)(p - (char const *)pool) % sizeof(Elem) == offsetof(Elem, node);
     }
 };
 
@@ -173,7 +192,7 @@ static int walk(Live const &L, tnode const *n, tnode const *parent, Check &ck, b
 {
     if (!n) { return 0; }
     if (!L.in_pool(n)) { ck.fail("wild-pointer", "a child pointer leaves the node pool"); return -1; }
-    Elem const *e = (Elem const *)n;
+    Elem const *e = ELEMC(n);
     if (ck.visited[e->id >> 6] & (1ul << (e->id & 63))) { ck.fail("cycle", "node " + std::to_string(e->id) + " reached twice"); return -1; }
     ck.visited[e->id >> 6] |= 1ul << (e->id & 63);
     if (++ck.count > MAXN + 1) { ck.fail("cycle", "more nodes than the pool holds"); return -1; }
@@ -402,7 +421,7 @@ struct Harness
             if (!out.enter(op)) { continue; }
             Elem probe;
             probe.key = 2 * (long)r + 1;
-            tnode *got = T(search)(&L.root, &probe, cmp_elem);
+            tnode *got = T(search)(&L.root, &probe.node, cmp_elem);
             out.leave();
             if (got != &L.order[r]->node) { out.viol(op, TNAME "|search|present-not-found", "lookup of a present key did not return its element"); continue; }
             out.succ(op, key, "search", "found");
@@ -413,7 +432,7 @@ struct Harness
             if (!out.enter(op)) { continue; }
             Elem probe;
             probe.key = 2 * (long)g;
-            tnode *got = T(search)(&L.root, &probe, cmp_elem);
+            tnode *got = T(search)(&L.root, &probe.node, cmp_elem);
             out.leave();
             if (got != nullptr) { out.viol(op, TNAME "|search|absent-found", "lookup of an absent key returned an element"); continue; }
             out.succ(op, key, "search", "absent");
@@ -568,7 +587,7 @@ struct Harness
                     }
                     ++yielded;
                     gone.insert(cur);
-                    poison((Elem *)cur);
+                    poison(ELEM(cur));
                     return true;
                 };
                 for (size_t i = 0; i < k; ++i) { if (!one("first part")) { break; } }
@@ -634,7 +653,7 @@ struct Harness
                     break;
                 }
                 gone.insert(cur);
-                poison((Elem *)cur);
+                poison(ELEM(cur));
             }
             if (err.empty() && gone.size() != n) { cls = "short"; err = "tear-down from an explicit starting node handed out " + std::to_string(gone.size()) + " of " + std::to_string(n) + " elements"; }
             if (err.empty() && L.root.node != nullptr) { cls = "not-empty"; err = "tear-down from an explicit starting node left a non-empty tree"; }
@@ -657,12 +676,12 @@ struct Harness
             ref_trav(L.root.node, 4, ref);
             if (form == 0)
             {
-                T_FORTEAR(cur, next, &L.root) { got.push_back(cur); poison((Elem *)cur); if (got.size() > n + 2) break; }
+                T_FORTEAR(cur, next, &L.root) { got.push_back(cur); poison(ELEM(cur)); if (got.size() > n + 2) break; }
             }
             else
             {
                 tnode *cur, *next;
-                TU_FORTEAR(cur, next, &L.root) { got.push_back(cur); poison((Elem *)cur); if (got.size() > n + 2) break; }
+                TU_FORTEAR(cur, next, &L.root) { got.push_back(cur); poison(ELEM(cur)); if (got.size() > n + 2) break; }
             }
 #if HAVE_ASAN
             __asan_unpoison_memory_region(L.pool, sizeof L.pool);
